@@ -1,6 +1,8 @@
 //! C04 — exact nearest-neighbour search; k-NN estimators.
 use crate::engine::*;
 use crate::gen::*;
+use crate::matops::{ft, fvec, tf, tvec};
+use smartcore::math::num::RealNumber;
 use proptest::collection::vec;
 use proptest::prelude::*;
 use serde::{Deserialize, Serialize};
@@ -110,19 +112,19 @@ fn enum_lattice(t: Tier) -> Box<dyn Iterator<Item = SearchCase>> {
 
 type Found = Vec<(usize, f64, Vec<f64>)>;
 
-trait Searcher {
-    fn find(&self, q: &Vec<f64>, k: usize) -> Result<Result<Found, String>, String>;
-    fn find_radius(&self, q: &Vec<f64>, r: f64) -> Result<Result<Found, String>, String>;
+trait Searcher<T> {
+    fn find(&self, q: &Vec<T>, k: usize) -> Result<Result<Found, String>, String>;
+    fn find_radius(&self, q: &Vec<T>, r: T) -> Result<Result<Found, String>, String>;
 }
 
 macro_rules! impl_searcher {
     ($ty:ident) => {
-        impl<D: Distance<Vec<f64>, f64>> Searcher for $ty<Vec<f64>, f64, D> {
-            fn find(&self, q: &Vec<f64>, k: usize) -> Result<Result<Found, String>, String> {
-                catch(|| $ty::find(self, q, k).map(|v| v.into_iter().map(|(i, d, p)| (i, d, p.clone())).collect()).map_err(|e| e.to_string()))
+        impl<T: RealNumber, D: Distance<Vec<T>, T>> Searcher<T> for $ty<Vec<T>, T, D> {
+            fn find(&self, q: &Vec<T>, k: usize) -> Result<Result<Found, String>, String> {
+                catch(|| $ty::find(self, q, k).map(|v| v.into_iter().map(|(i, d, p)| (i, ft(d), fvec(p))).collect()).map_err(|e| e.to_string()))
             }
-            fn find_radius(&self, q: &Vec<f64>, r: f64) -> Result<Result<Found, String>, String> {
-                catch(|| $ty::find_radius(self, q, r).map(|v| v.into_iter().map(|(i, d, p)| (i, d, p.clone())).collect()).map_err(|e| e.to_string()))
+            fn find_radius(&self, q: &Vec<T>, r: T) -> Result<Result<Found, String>, String> {
+                catch(|| $ty::find_radius(self, q, r).map(|v| v.into_iter().map(|(i, d, p)| (i, ft(d), fvec(p))).collect()).map_err(|e| e.to_string()))
             }
         }
     };
@@ -141,24 +143,32 @@ fn validate_entries(tag: &str, data: &Pts, refd: &[f64], found: &Found) -> Resul
     Ok(())
 }
 
-fn search_with<D: Distance<Vec<f64>, f64>>(case: &SearchCase, dist: D, ctx: &mut Ctx) -> Result<(), Fail> {
-    let data = &case.data;
+/// Generic over the element type: for f32 the generated points are rounded to f32, the reference distances come
+/// from the library's own Distance in f32, and radii are realised f32 distances, their f32 midpoints and beyond.
+/// `pfx` is prepended to the signatures of the f32 run.
+fn search_with<T: RealNumber, D: Distance<Vec<T>, T>>(case: &SearchCase, dist: D, ctx: &mut Ctx, pfx: &str) -> Result<(), Fail> {
+    let data_t: Vec<Vec<T>> = case.data.iter().map(|r| tvec::<T>(r)).collect();
+    let queries_t: Vec<Vec<T>> = case.queries.iter().map(|r| tvec::<T>(r)).collect();
+    let data64: Pts = data_t.iter().map(|r| fvec(r)).collect();
+    let data = &data64;
     let n = data.len();
     let exhaustive = case.ksel.is_empty();
     let mut ties_seen = 0u64;
-    for alg in ["cover_tree", "linear"] {
-        let built: Result<Result<Box<dyn Searcher>, String>, String> = if alg == "cover_tree" {
-            catch(|| CoverTree::new(data.clone(), dist.clone()).map(|t| Box::new(t) as Box<dyn Searcher>).map_err(|e| e.to_string()))
+    for alg0 in ["cover_tree", "linear"] {
+        let alg_s = format!("{}{}", pfx, alg0);
+        let alg = alg_s.as_str();
+        let built: Result<Result<Box<dyn Searcher<T>>, String>, String> = if alg0 == "cover_tree" {
+            catch(|| CoverTree::new(data_t.clone(), dist.clone()).map(|t| Box::new(t) as Box<dyn Searcher<T>>).map_err(|e| e.to_string()))
         } else {
-            catch(|| LinearKNNSearch::new(data.clone(), dist.clone()).map(|t| Box::new(t) as Box<dyn Searcher>).map_err(|e| e.to_string()))
+            catch(|| LinearKNNSearch::new(data_t.clone(), dist.clone()).map(|t| Box::new(t) as Box<dyn Searcher<T>>).map_err(|e| e.to_string()))
         };
         let s = match built {
             Err(p) => return fail(format!("{}/new/panic", alg), format!("construction over {} points panicked: {}", n, p)),
             Ok(Err(e)) => return fail(format!("{}/new/err", alg), format!("construction failed: {}", e)),
             Ok(Ok(s)) => s,
         };
-        for (qi, q) in case.queries.iter().enumerate() {
-            let refd: Vec<f64> = data.iter().map(|p| dist.distance(q, p)).collect();
+        for (qi, q) in queries_t.iter().enumerate() {
+            let refd: Vec<f64> = data_t.iter().map(|p| ft(dist.distance(q, p))).collect();
             let mut sorted = refd.clone();
             sorted.sort_by(|a, b| a.partial_cmp(b).unwrap());
             let ks: Vec<usize> = if exhaustive { (1..=n).collect() } else { vec![1 + idx(case.ksel[qi % case.ksel.len()], n), n, 1] };
@@ -181,22 +191,22 @@ fn search_with<D: Distance<Vec<f64>, f64>>(case: &SearchCase, dist: D, ctx: &mut
             // radii: realised distances (boundary), midpoints, and beyond
             let mut radii: Vec<f64> = vec![];
             if exhaustive {
-                radii.extend([1.0, 2f64.sqrt(), 2.0, 5f64.sqrt(), 8f64.sqrt(), 0.5, 3.0]);
+                radii.extend([1.0, 2f64.sqrt(), 2.0, 5f64.sqrt(), 8f64.sqrt(), 0.5, 3.0].iter().map(|r| ft::<T>(tf::<T>(*r))));
             } else {
                 for t in 0..2 {
                     let a = sorted[idx(case.rsel[(2 * qi + t) % case.rsel.len()], n)];
                     radii.push(a);
                     let b = sorted[idx(case.rsel[(2 * qi + t + 1) % case.rsel.len()], n)];
-                    radii.push(0.5 * (a + b));
+                    radii.push(ft::<T>(tf::<T>(0.5 * (a + b))));
                 }
-                radii.push(sorted[n - 1] * 2.0 + 1.0);
+                radii.push(ft::<T>(tf::<T>(sorted[n - 1] * 2.0 + 1.0)));
             }
             for r in radii {
                 if !(r > 0.0) {
                     continue;
                 }
                 let tag = format!("{}/find_radius", alg);
-                let found = match s.find_radius(q, r) {
+                let found = match s.find_radius(q, tf::<T>(r)) {
                     Err(p) => return fail(format!("{}/panic", tag), format!("find_radius({}) panicked: {}", r, p)),
                     Ok(Err(e)) => return fail(format!("{}/err", tag), format!("find_radius({}) failed: {}", r, e)),
                     Ok(Ok(f)) => f,
@@ -215,7 +225,7 @@ fn search_with<D: Distance<Vec<f64>, f64>>(case: &SearchCase, dist: D, ctx: &mut
                 }
             }
             // invalid arguments are reported as errors
-            for (what, r) in [("k=0", s.find(q, 0)), ("k>n", s.find(q, n + 1)), ("r=0", s.find_radius(q, 0.0)), ("r<0", s.find_radius(q, -1.0))] {
+            for (what, r) in [("k=0", s.find(q, 0)), ("k>n", s.find(q, n + 1)), ("r=0", s.find_radius(q, T::zero())), ("r<0", s.find_radius(q, -T::one()))] {
                 match r {
                     Err(p) => return fail(format!("{}/invalid/{}/panic", alg, what), format!("{} panicked instead of returning an error: {}", what, p)),
                     Ok(Ok(_)) => return fail(format!("{}/invalid/{}/accepted", alg, what), format!("{} accepted", what)),
@@ -236,10 +246,29 @@ pub fn check_search(case: &SearchCase, ctx: &mut Ctx) -> Result<(), Fail> {
     ctx.label_if(n == 1, "single-point");
     ctx.nontrivial(if case.ksel.is_empty() { n >= 2 } else { n >= 8 });
     match case.metric {
-        Metric::Euclidian => search_with(case, Distances::euclidian(), ctx),
-        Metric::Manhattan => search_with(case, Distances::manhattan(), ctx),
-        Metric::Minkowski(p) => search_with(case, Distances::minkowski(p), ctx),
-        Metric::Hamming => search_with(case, Distances::hamming(), ctx),
+        Metric::Euclidian => search_with::<f64, _>(case, Distances::euclidian(), ctx, ""),
+        Metric::Manhattan => search_with::<f64, _>(case, Distances::manhattan(), ctx, ""),
+        Metric::Minkowski(p) => search_with::<f64, _>(case, Distances::minkowski(p), ctx, ""),
+        Metric::Hamming => search_with::<f64, _>(case, Distances::hamming(), ctx, ""),
+    }
+}
+
+/// The same check on the f32 instantiation of both search structures. Every other case is multiplied by 0.1
+/// first, so that lattice coordinates are not exactly representable and ties arise from rounded operands.
+pub fn check_search_f32(case: &SearchCase, ctx: &mut Ctx) -> Result<(), Fail> {
+    let n = case.data.len();
+    ctx.label(format!("class:{}", case.class));
+    ctx.label(format!("metric:{:?}", case.metric));
+    ctx.nontrivial(if case.ksel.is_empty() { n >= 2 } else { n >= 8 });
+    let tenth = n % 2 == 1;
+    ctx.label_if(tenth, "scaled-by-0.1");
+    let sc = |p: &Pts| -> Pts { p.iter().map(|r| r.iter().map(|x| if tenth { x * 0.1 } else { *x }).collect()).collect() };
+    let c = SearchCase { class: case.class.clone(), metric: case.metric, data: sc(&case.data), queries: sc(&case.queries), ksel: case.ksel.clone(), rsel: case.rsel.clone() };
+    match c.metric {
+        Metric::Euclidian => search_with::<f32, _>(&c, Distances::euclidian(), ctx, "f32/"),
+        Metric::Manhattan => search_with::<f32, _>(&c, Distances::manhattan(), ctx, "f32/"),
+        Metric::Minkowski(p) => search_with::<f32, _>(&c, Distances::minkowski(p), ctx, "f32/"),
+        Metric::Hamming => search_with::<f32, _>(&c, Distances::hamming(), ctx, "f32/"),
     }
 }
 
@@ -575,6 +604,7 @@ pub fn property() -> Property {
         ],
         subs: vec![
             sub_enum("search", (1500, 40000), strat_search, check_search, enum_lattice),
+            sub_enum("search_f32", (700, 20000), strat_search, check_search_f32, enum_lattice),
             sub("knn_estimators", (3000, 80000), strat_knn, check_knn),
             sub("knn_invalid", (200, 2000), strat_knn_bad, check_knn_bad),
             sub("heap_selection", (1500, 40000), strat_heap, check_heap),
